@@ -45,7 +45,8 @@ BASE_ISA = {
 
 # macro operand patterns: name -> (operand set names, invocation operand alternatives per slot)
 # an invocation operand: (full text, argument text or None, register name or None)
-NUMS = [('5', '5', None), ('start', 'start', None), ('fwd', 'fwd', None), ('fwd+1', 'fwd+1', None)]
+NUMS = [('5', '5', None), ('start', 'start', None), ('fwd', 'fwd', None), ('fwd+1', 'fwd+1', None),
+        ("'@'", "'@'", None)]          # the character literal '@': not a placeholder
 REGOPS = [('a', None, 'a'), ('b', None, 'b')]
 INDS = [('[fwd]', 'fwd', None), ('[ start + 2 ]', 'start + 2', None)]
 ENUMS = [('foo', None, None), ('bar', None, None)]
